@@ -182,9 +182,9 @@ def run(tier):
                 for ch in (INNER if full or pos % 2 else "!~_."):
                     bad.append(("innerjunk", t[:pos] + ch + t[pos:], {"pos": pos, "char": ch, "tmpl": t}))
     # families (iii) and (iv): nasm is the referee for "invalid" as well - a line nasm assembles is not demanded to be rejected
-    ref = oracle.nasm_many([t for fam, t, m in bad if fam in ("scale", "spindex", "syntax", "addrreg")])
+    ref = oracle.nasm_many([t for fam, t, m in bad if fam in ("scale", "spindex", "syntax", "addrreg", "junkvalid")])
     nref = len(bad)
-    bad = [(fam, t, m) for fam, t, m in bad if fam not in ("scale", "spindex", "syntax", "addrreg") or ref[t][0] is None]
+    bad = [(fam, t, m) for fam, t, m in bad if fam not in ("scale", "spindex", "syntax", "addrreg", "junkvalid") or ref[t][0] is None]
     dropped_by_referee = nref - len(bad)
     # (vi) junk in front of a malformed line does not rescue it: characters that are neither letters nor the comment (';') / macro ('%') /
     # label (':') markers - a line with a ':' is a label line and is skipped as a whole, as documented
@@ -194,6 +194,11 @@ def run(tier):
         for fam, t, m in rnd.sample(pool, 12 if not full else 150) + [("syntax", "bogus rax, 1", {}), ("syntax", "lea rax, rbx", {}), ("syntax", "mov rax, [rbx+rcx*3]", {})]:
             pre = ch if rnd.random() < 0.6 else ch + "".join(rnd.choice(JUNK) for _ in range(rnd.randrange(1, 3)))
             bad.append(("junkprefix", pre + t, dict(m, junk=pre, inner=fam)))
+        # ... nor does it belong in front of a valid line: the first token is then no mnemonic (nasm referees)
+        for t in TEMPLATES[:4] + [rnd.choice(TEMPLATES)]:
+            pre = ch if rnd.random() < 0.7 else ch + rnd.choice(JUNK)
+            if pre.strip(" \t"):
+                bad.append(("junkvalid", pre + t, {"junk": pre, "tmpl": t}))
     # ---- run: each bad line alone, and first / middle / last in a 3-line program of valid neighbours
     items, meta = [], []
     for fam, text, m in bad:
